@@ -134,6 +134,16 @@ pub fn human_rendering(sc: &Scenario) -> Vec<String> {
 static CUR_RUN: AtomicU64 = AtomicU64::new(u64::MAX);
 static CUR_SINCE_MS: AtomicU64 = AtomicU64::new(0);
 
+static T0: std::sync::OnceLock<Instant> = std::sync::OnceLock::new();
+/// called after every library execution: the watchdog measures time without progress, not time per scenario
+pub fn heartbeat() {
+    if let Some(t0) = T0.get() {
+        if CUR_RUN.load(Ordering::Relaxed) != u64::MAX {
+            CUR_SINCE_MS.store(now_ms(*t0), Ordering::Relaxed);
+        }
+    }
+}
+
 fn now_ms(t0: Instant) -> u64 {
     t0.elapsed().as_millis() as u64
 }
@@ -155,6 +165,7 @@ pub struct WorkerArgs {
 
 pub fn worker(a: WorkerArgs) -> i32 {
     let t0 = Instant::now();
+    let _ = T0.set(t0);
     // silence panic messages from library code under catch_unwind (they are reported as violations)
     std::panic::set_hook(Box::new(|_| {}));
     let cur_path = a.workdir.join(format!("w{}.cur", a.w));
